@@ -7,8 +7,8 @@
      - L2 in full (C02_delivery_exact, C02_setoffset_next, C02_generation_exact, ...), with the
        contract as an explicit hypothesis on labels;
      - C02_conn_offset_advances in full, for arbitrary response bytes;
-     - L1 decoding: proved for layouts of uncompressed v2 batches and for layouts of uncompressed
-       v0/v1 messages, every offset and legal cut (C02_batch_decode_exact_v2_uncompressed_partial,
+     - L1 decoding: proved for layouts of v2 batches (any codec, oracle) and for layouts of uncompressed
+       v0/v1 messages, every offset and legal cut (C02_batch_decode_exact_v2_partial — compressed or not —,
        C02_batch_decode_exact_legacy_uncompressed_partial, each linked to L2 by a C02_contract_*
        theorem); the full statement is kept as a Definition.
    Three defects of the code found by this check (F1 and two more) were fixed in /repo; their
@@ -42,38 +42,46 @@ Definition C02_batch_decode_exact_full_statement : Prop :=
         fetch_run decomp fuel o hwm (fetch_response compress l o k) (Z.of_nat k) false = Some (ms, EEOF, f)
         /\ fetch_ok log o ms f.
 
-(* proved: the full statement restricted to layouts of UNCOMPRESSED v2 batches whose sizes fit
-   the wire format ([v2ok]: codec 0, lengths and counts below 2^30, record bodies below 2^31):
-   for every such layout — compaction holes at the head, inside and at the tail of batches,
-   record-less batches anywhere, any number in a row —, every fetch offset with data at or after
-   it and every legal cut (any byte position that keeps the first batch whole), the model's
+(* proved: the full statement restricted to layouts of v2 batches, COMPRESSED OR NOT, whose sizes
+   fit the wire format ([v2ok]: codec 0..4, lengths and counts below 2^30, record bodies below
+   2^31, a record-less batch carries no payload), with decompression as an oracle obeying
+   decomp c (compress c x) = Some x: for every such layout — compaction holes at the head,
+   inside and at the tail of batches, record-less batches anywhere, any number in a row, any
+   mix of compressed and uncompressed batches —, every fetch offset with data at or after it
+   and every legal cut (any byte position that keeps the first batch whole), the model's
    Batch.ReadMessage loop returns exactly the stored records in [o, f), in order, with the
    stored offset / millisecond timestamp / key / value / headers, then io.EOF, and leaves
-   Conn.offset = f >= o.  [fetch_ok] with the exactness of [between] says: the records wholly
-   contained in the received bytes with offset >= o, none else. *)
-Theorem C02_batch_decode_exact_v2_uncompressed_partial :
-  forall (compress : Z -> list N -> list N) (decomp : Z -> list N -> option (list N)) log l o k hwm,
+   Conn.offset = f >= o.  Uncompressed batches are delivered record by record up to the cut;
+   a compressed batch is delivered whole or not at all.  [fetch_ok] with the exactness of
+   [between] says: the records wholly contained in the received bytes with offset >= o, none
+   else. *)
+Theorem C02_batch_decode_exact_v2_partial :
+  forall (compress : Z -> list N -> list N) (decomp : Z -> list N -> option (list N)),
+  (forall c x, decomp c (compress c x) = Some x) ->
+  forall log l o k hwm,
   log_ok log -> layout_ok log l ->
-  Forall (fun b => pb_fmt b = 2) l -> Forall v2ok l ->
+  Forall (fun b => pb_fmt b = 2) l -> Forall (v2ok compress) l ->
   from_offset l o <> [] -> valid_cut compress l o k -> hwm <> o ->
   forall fuel, (S (tokens [] (from_offset l o)) <= fuel)%nat ->
   exists ms f,
     fetch_run decomp fuel o hwm (fetch_response compress l o k) (Z.of_nat k) false = Some (ms, EEOF, f)
     /\ fetch_ok log o ms f.
-Proof. exact batch_decode_exact_v2_uncompressed. Qed.
-Print Assumptions C02_batch_decode_exact_v2_uncompressed_partial.
+Proof. exact batch_decode_exact_v2. Qed.
+Print Assumptions C02_batch_decode_exact_v2_partial.
 
 (* the link L1 -> L2: such a response is a legal answer in the sense of the delivery theorems *)
-Theorem C02_contract_v2_uncompressed :
-  forall (compress : Z -> list N -> list N) (decomp : Z -> list N -> option (list N)) log l k hwm fuel g,
+Theorem C02_contract_v2 :
+  forall (compress : Z -> list N -> list N) (decomp : Z -> list N -> option (list N)),
+  (forall c x, decomp c (compress c x) = Some x) ->
+  forall log l k hwm fuel g,
   log_ok log -> layout_ok log l ->
-  Forall (fun b => pb_fmt b = 2) l -> Forall v2ok l ->
+  Forall (fun b => pb_fmt b = 2) l -> Forall (v2ok compress) l ->
   from_offset l (g_conn g) <> [] -> valid_cut compress l (g_conn g) k -> hwm <> g_conn g ->
   (S (tokens [] (from_offset l (g_conn g))) <= fuel)%nat ->
   ev_ok (fetch_run decomp fuel) log g
         (GFetch (FData hwm (fetch_response compress l (g_conn g) k) (Z.of_nat k) false)).
-Proof. exact contract_v2_uncompressed. Qed.
-Print Assumptions C02_contract_v2_uncompressed.
+Proof. exact contract_v2. Qed.
+Print Assumptions C02_contract_v2.
 
 (* proved: the full statement restricted to layouts of UNCOMPRESSED v0 / v1 messages
    ([legacy_ok]: format 0 or 1, codec 0, keys and values below 2^29 bytes, v0 records carry no
